@@ -15,6 +15,8 @@ class Sess:
         self.nstart, self.maxrt, self.est, self.open = nstart, maxrt, bool(est0), True
         self.client = client
         self.mc_pending = False   # a delayed multicast response waits in the send queue
+        self.hooks = {}           # mid -> (newmid, newtok): resubmitted by the nack handler
+        self.pings = 0            # keepalive pings the library has sent
         self.act = 0
         self.dq = []          # (con, mid, tok, cnt)
         self.sq = []          # (con, mid, tok, cnt)
@@ -70,7 +72,22 @@ class Sess:
             self.finished.append(mid)
             self.dec_drain()
 
-    rst = ack
+    def nacked(self, mid):
+        h = self.hooks.pop(mid, None)
+        if h:
+            self.submit(True, h[0], h[1])
+
+    def rst(self, mid):
+        if self.open and self.remove(mid):
+            self.finished.append(mid)
+            self.dec_drain()
+            self.nacked(mid)
+
+    def ping(self, k):
+        """the keepalive period is over"""
+        if self.client and self.open and self.est and self.act == 0:
+            self.pings += 1
+            self.submit(True, 50000 + 1000 * k + self.pings, 0)
 
     def tick(self, mid):
         if not self.open:
@@ -83,6 +100,7 @@ class Sess:
         else:
             self.finished.append(mid)
             self.dec_drain()
+            self.nacked(mid)
 
     def sep(self, tok):
         if not self.open:
@@ -116,12 +134,15 @@ def gen_case(r, big=False, natural=False, errs=False):
         ss.append(Sess(r.choice([1, 1, 1, 2, 2, 3, 4]), r.choice([1, 1, 2, 2, 4]), est0,
                        client=r.random() > 0.35))
         est0s.append(est0)
-    next_mid = [r.randrange(1, 60000) for _ in range(nsess)]
+    next_mid = [r.randrange(1, 40000) for _ in range(nsess)]   # (50000.. = the library's own pings)
     next_tok = [10000 + 1000 * k for k in range(nsess)]   # away from libcoap's own state tokens (1, 2, ...)
     nsub = r.randrange(1, 21) if not big else r.randrange(10, 21)
     allow_oos = r.random() < 0.12      # a peer outside the property's peer model
     burst = r.random() < 0.35          # submit everything first, then the peer answers
     ops = []
+    if natural and r.random() < 0.5:
+        ops.append("K%d" % r.choice([2, 5, 5, 8, 30]))    # keepalive: the library pings when idle
+    use_hooks = r.random() < 0.35      # the application's nack handler retries from the callback
     in_scope = True
     subs = 0
     steps = 0
@@ -144,12 +165,18 @@ def gen_case(r, big=False, natural=False, errs=False):
                 con = con or s.est                 # (a NON on an established session is not held,
                                                    #  so it would really put the id on the wire twice)
             else:
-                next_mid[k] = (next_mid[k] % 65535) + 1
+                next_mid[k] = (next_mid[k] % 45000) + 1
                 mid = next_mid[k]
             next_tok[k] += 1
             tok = next_tok[k]
             ops.append("S%d,%s,%d,%d" % (k, "c" if con else "n", mid, tok))
+            fresh = mid not in s.used
             s.submit(con, mid, tok)
+            if use_hooks and con and fresh and r.random() < 0.5:
+                next_mid[k] = (next_mid[k] % 45000) + 1
+                next_tok[k] += 1
+                s.hooks[mid] = (next_mid[k], next_tok[k])
+                ops.append("H%d,%d,%d,%d" % (k, mid, next_mid[k], next_tok[k]))
             continue
         if subs >= nsub and not any(t.sq or t.dq for t in ss):
             break
@@ -170,6 +197,8 @@ def gen_case(r, big=False, natural=False, errs=False):
                 cand.append((4, r.choice("AR"), r.choice(s.dq)[1] if s.dq and r.random() < 0.6
                              else r.randrange(1, 65536)))
             cand.append((1, "P", r.randrange(30000, 34000)))
+            if s.client and not natural and not errs:
+                cand.append((5 if (s.est and s.act == 0) else 1, "G", 0))
             if not s.client and s.est and not natural and not errs:
                 # multicast request from the peer / its delayed response goes out
                 cand.append((6, "Y", 0) if s.mc_pending else (3, "M", 0))
@@ -214,6 +243,9 @@ def gen_case(r, big=False, natural=False, errs=False):
             s.fail(arg)
             if arg != 4:
                 s.mc_pending = False
+        elif kind == "G":
+            ops.append("G%d" % k)
+            s.ping(k)
         elif kind == "M":
             ops.append("M%d" % k)
             s.mc_pending = True
@@ -259,16 +291,26 @@ def line_of(prefix, ops):
     return " ".join(list(prefix) + list(ops))
 
 
-def enum_cases(depth, nstart, maxrt, est0, max_sub=3, client=True):
+def enum_cases(depth, nstart, maxrt, est0, max_sub=3, client=True, hooks=False):
     """Exhaustive small scope: every history of exactly `depth` events over the alphabet
     {S con, S non, and for every message id submitted so far: A R T P, plus one unknown id for A R,
      U, F1, F4} on one session; ids are 1,2,3.. in submission order, tokens 10000+id.
     Yields (prefix, ops)."""
     prefix = ["ns", "1", "1", "%d,%d,%d,1%s" % (nstart, maxrt, 1 if est0 else 0, "" if client else ",s")]
 
-    def rec(ops, nsub, left):
+    def rec(ops, nsub, left, npings=0):
         if left == 0:
-            yield list(ops)
+            # with hooks: the nack handler of every CON resubmits (id + 10) from the callback
+            if hooks:
+                out = []
+                for o in ops:
+                    out.append(o)
+                    if o.startswith("S0,c,"):
+                        f = o.split(",")
+                        out.append("H0,%s,%d,%d" % (f[2], int(f[2]) + 10, int(f[3]) + 10))
+                yield out
+            else:
+                yield list(ops)
             return
         alpha = []
         if nsub < max_sub:
@@ -276,12 +318,19 @@ def enum_cases(depth, nstart, maxrt, est0, max_sub=3, client=True):
         for m in range(1, nsub + 1):
             alpha += ["A0,%d" % m, "R0,%d" % m, "T0,%d" % m, "P0,%d" % (10000 + m)]
         alpha += ["U0", "F0,1", "F0,4"]
+        if client:
+            alpha.append("G0")
+            for m in range(1, npings + 1):
+                pm = 50000 + m
+                alpha += ["A0,%d" % pm, "R0,%d" % pm, "T0,%d" % pm]
         for a in alpha:
             # nothing but refused submissions can follow the disconnect of a client session: prune
             if client and ops and ops[-1] == "F0,1" and a[0] != "S":
                 continue
             ops.append(a)
-            yield from rec(ops, nsub + (1 if a[0] == "S" else 0), left - 1)
+            # (an upper bound of the pings sent so far is enough to put their ids into the alphabet)
+            yield from rec(ops, nsub + (1 if a[0] == "S" else 0), left - 1,
+                           min(2, npings + (1 if a == "G0" else 0)))
             ops.pop()
 
     for ops in rec([], 0, depth):
